@@ -179,7 +179,7 @@ class Harness:
             if key not in H.prf_memo:
                 n_ = 1 if n is None else n
                 if isinstance(n, tuple): raise Concretised('PRF with shape')
-                H.prf_memo[key] = [C.fresh('prf', 0, prf.max, deg=0) for _ in range(n_)]
+                H.prf_memo[key] = [C.fresh('prf', 0, prf.max, deg=H.tv) for _ in range(n_)]
             v = H.prf_memo[key]
             return v[0] if n is None else list(v)
         thresha.PRF.__call__ = prf_call
